@@ -782,7 +782,10 @@ def fusion(
     while True:
         try:
             instr2, addr2 = next(instr_iter)
-        except (StopIteration, NotImplementedError):
+        except (StopIteration, NotImplementedError, AssertionError):
+            # The look-ahead exists only to fuse a PRE prefix with the instruction after it.
+            # Bytes that follow instr1 and do not decode (data, an invalid mode byte) must not
+            # invalidate instr1 itself: its decoding may not depend on anything beyond its length.
             yield instr1, addr1
             break
 
